@@ -462,12 +462,12 @@ var ppBinOps = []string{"|", "or", "&", "and", "=", "!=", "^=", "~=", ">", ">=",
 
 // ppNode is a tree of the oracle.
 type ppNode struct {
-	kind string   // bin | not | call | access | list | leaf
-	op   string   // bin: operator (lower case)
+	kind string    // bin | not | call | access | list | leaf
+	op   string    // bin: operator (lower case)
 	kids []*ppNode // bin: L R (between: L, list(lo,hi)) ; not: X ; call: args ; access: L F ; list: items
-	text string   // leaf: source text ; call: function name (lower case)
-	shp  string   // leaf: its shape
-	typ  string   // bool | str | num | list  (assigned for sequences)
+	text string    // leaf: source text ; call: function name (lower case)
+	shp  string    // leaf: its shape
+	typ  string    // bool | str | num | list  (assigned for sequences)
 }
 
 func leaf(text, shape string) *ppNode { return &ppNode{kind: "leaf", text: text, shp: shape} }
@@ -515,7 +515,7 @@ type seqItem struct {
 // shuntingYard builds the tree of `s0 op1 s1 op2 s2 …` from the README table alone.
 func shuntingYard(ops []string) (*ppNode, []*ppNode) {
 	// token stream: slot, op, slot, op, slot…; after `between`: slot band slot
-	var out []*ppNode  // operand stack
+	var out []*ppNode // operand stack
 	var opst []string // operator stack ("between" waits for its lower bound, "between2" for the upper)
 	var slots []*ppNode
 	newSlot := func() *ppNode {
@@ -1143,13 +1143,15 @@ func runPARSE(e *Env) (*Summary, error) {
 	rec(nil)
 	nTrees := e.n(6000, 150000)
 	nStmts := e.n(6000, 150000)
-	nSeq5 := e.n(1200, 40000) // random sequences of 5 operators (18^5 in all)
-	nWide := e.n(1500, 40000) // statements with wide literals, long words and LIMIT numbers ≥ 2^31
+	nSeq5 := e.n(1200, 40000)   // random sequences of 5 operators (18^5 in all)
+	nWide := e.n(1500, 40000)   // statements with wide literals, long words and LIMIT numbers ≥ 2^31
+	nQuoted := e.n(2500, 60000) // (e) back-quoted field names that are words of the language, defined and referenced
 	rule := fmt.Sprintf("(a) all %d sequences of 1..%d binary operators (and "+fmt.Sprint(nSeq5)+" random sequences of 5) over %v with operands typed so that the expression checks where the operators allow, each as text without parentheses, with random redundant parentheses and fully parenthesised, one in four also without blanks around the symbolic operators, random letter case, as WHERE expression and as select field; one text operand in eight is a literal with %%, a backslash, multi-byte UTF-8 or more than 300 bytes; (d) "+fmt.Sprint(nWide)+" statements (select / put / remove / delete) over such literals, 300-byte words and LIMIT numbers up to 2^63-1 whose parsed Start/Count are also compared with the numbers written (C08); (b) %d random typed expression trees to depth 6 rendered minimally / redundantly / fully; (c) %d statements of the typed generator (select with aliases, order, group, limit; put; remove; delete), each with 3 single-edit corruptions and random leading/trailing blanks. Every case: engine Parse vs model Parse (correspondence); tree shape vs the README-table oracle and print→re-parse (C15); error offsets (C17); panics (C06). Non-trivial: distinct accepted trees and distinct rejected texts",
 		len(seqs), maxLen, ppBinOps, nTrees, nStmts)
 	col := NewCollector("PARSE", e.Tier, e.Seed, rule)
 	col.sum.Exhaustive = true
-	total := uint64(len(seqs)) + uint64(nTrees) + uint64(nStmts) + uint64(nSeq5) + uint64(nWide)
+	total := uint64(len(seqs)) + uint64(nTrees) + uint64(nStmts) + uint64(nSeq5) + uint64(nWide) + uint64(nQuoted)
+	col.Note(fmt.Sprintf("(e) %d statements whose select fields are named, between back quotes, like words of the language (keywords, operator words, true/false, inf/nan, upper case, blanks, digits) and referenced by that name in WHERE and in later fields: correspondence, print -> re-parse (C15), error offsets (C17)", nQuoted))
 	err := e.parallel(func(w int, d *Driver) error {
 		for ix := uint64(w); ix < total; ix += uint64(e.Workers) {
 			r := NewRand(e.Seed, "PARSE", ix)
@@ -1174,8 +1176,12 @@ func runPARSE(e *Env) (*Summary, error) {
 				if err := parseSeqCase(col, d, r, ops, e.Seed, ix); err != nil {
 					return err
 				}
-			default:
+			case ix < uint64(len(seqs)+nTrees+nStmts+nSeq5+nWide):
 				if err := parseWideCase(col, d, r, e.Seed, ix); err != nil {
+					return err
+				}
+			default:
+				if err := parseQuotedNameCase(col, d, r, e.Seed, ix); err != nil {
 					return err
 				}
 			}
@@ -1418,6 +1424,122 @@ func parseWideCase(col *Collector, d *Driver, r *Rand, seed, idx uint64) error {
 	}
 	if idx%499 == 0 {
 		col.Sample(clip(q))
+	}
+	return nil
+}
+
+// quotedNames: field names that can only be written between back quotes, because bare they are
+// something else: keywords and operator words of the language, Boolean and float words, names with
+// upper case letters (bare words are lower-cased), blanks (one, and runs of them), operator bytes,
+// a leading digit; and two ordinary names as controls
+var quotedNames = []string{
+	"key", "value", "limit", "order", "group", "by", "as", "in", "between", "and", "or", "true", "false", "select", "where", "put", "remove",
+	"delete", "asc", "desc", "inf", "infinity", "nan", "+inf", "-inf", "KEY", "Value", "Limit", "a b", "a  b", " a", "a\tb", "x-y", "a+b", "k=1", "1", "1x", "1.5", "1e3", "é",
+	"(", "a,b", "*", "uk", "n1",
+}
+
+// genQuotedNameStmt: `select E1 as `N1`, E2 as `N2` [, E3(N1|N2) as `N3`] where P(N1, N2, N3)`
+func genQuotedNameStmt(r *Rand) string {
+	head, where, tail := genQuotedNameParts(r)
+	return head + where + tail
+}
+
+// genQuotedNameParts: the statement in three pieces: up to and including `where `, the WHERE text, the rest
+func genQuotedNameParts(r *Rand) (string, string, string) {
+	bq := func(n string) string { return "`" + n + "`" }
+	names := map[string]bool{}
+	fresh := func() string {
+		for {
+			n := pick(r, quotedNames)
+			if !names[n] {
+				names[n] = true
+				return n
+			}
+		}
+	}
+	ns, nn := fresh(), fresh() // a text field and a number field
+	fields := []string{
+		pick(r, []string{"upper(key)", "key", "value", "lower(value)", "key + value", "substr(key, 0, 1)"}) + " as " + bq(ns),
+		pick(r, []string{"int(value)", "strlen(key)", "int(value) + 1", "strlen(value) * 2"}) + " as " + bq(nn),
+	}
+	strRefs, numRefs := []string{bq(ns)}, []string{bq(nn)}
+	if r.Chance(1, 2) {
+		// a later field defined through an earlier one
+		n3 := fresh()
+		if r.Bool() {
+			fields = append(fields, pick(r, []string{bq(ns) + " + '-x'", "upper(" + bq(ns) + ")", "lower(" + bq(ns) + ") + key"})+" as "+bq(n3))
+			strRefs = append(strRefs, bq(n3))
+		} else {
+			fields = append(fields, pick(r, []string{bq(nn) + " + 1", bq(nn) + " * 2", "strlen(" + bq(ns) + ")"})+" as "+bq(n3))
+			numRefs = append(numRefs, bq(n3))
+		}
+	}
+	if r.Chance(1, 3) {
+		fields = append(fields, pick(r, []string{"key", "value", "key as uk"}))
+	}
+	if r.Chance(1, 5) {
+		fields[0], fields[1] = fields[1], fields[0]
+	}
+	atom := func() string {
+		s, n := pick(r, strRefs), pick(r, numRefs)
+		switch r.Intn(12) {
+		case 0:
+			return s + " = " + pick(r, []string{"'K1'", "'a'", "key"})
+		case 1:
+			return s + " ^= 'k'"
+		case 2:
+			return n + " " + pick(r, []string{">", "<=", "=", "!="}) + " " + pick(r, []string{"1", "2", "10"})
+		case 3:
+			return "!(" + n + " between 2 and 6)"
+		case 4:
+			return n + " in (5, 9)"
+		case 5:
+			return s + " in ('a', 'K1', 'x')"
+		case 6:
+			return "upper(" + s + ") != 'A'"
+		case 7:
+			return s + " + 'x' = 'ax'"
+		case 8:
+			return n + " + 1 > strlen(" + s + ")"
+		case 9:
+			return s + " between 'a' and 'z'"
+		case 10:
+			return s + " ~= '^k'"
+		default:
+			return "key ^= 'k'"
+		}
+	}
+	where := atom()
+	for i := r.Intn(3); i > 0; i-- {
+		where += pick(r, []string{" & ", " | ", " and ", " or "}) + atom()
+	}
+	head, tail := "select "+strings.Join(fields, ", ")+" where ", ""
+	switch r.Intn(6) {
+	case 0:
+		tail = " order by " + pick(r, append(append([]string{}, strRefs...), numRefs...)) + pick(r, []string{"", " desc"})
+	case 1:
+		tail = " limit 3"
+	}
+	return head, where, tail
+}
+
+// parseQuotedNameCase: (e) the print -> re-parse half of C15 for field references whose name is a
+// word of the language: the printed form of a reference must read back as the same reference
+func parseQuotedNameCase(col *Collector, d *Driver, r *Rand, seed, idx uint64) error {
+	q := genQuotedNameStmt(r)
+	c := parseCase{q, "quoted-name"}
+	eng, _, err := parseCompare(col, d, c, seed, idx)
+	if err != nil {
+		return err
+	}
+	if eng.err == nil && eng.stmt != nil {
+		col.Hist("quoted-name:accepted")
+	} else {
+		col.Hist("quoted-name:rejected")
+	}
+	parseProps(col, c, eng, "PARSE "+hxs(q)+" "+floatTable(q), seed, idx)
+	if idx%499 == 0 {
+		col.Sample(q)
 	}
 	return nil
 }
